@@ -128,6 +128,7 @@ func (x *ctx) stepAddSub(st Step) error {
 
 	d0, l0, s0 := a.degree(), a.level(), a.scale()
 	var out *rlwe.Ciphertext
+	var reg *entry
 	var wantDeg, wantLvl int
 	var vals []uint64
 	var B *big.Int
@@ -142,9 +143,8 @@ func (x *ctx) stepAddSub(st Step) error {
 			if st.OutDeg == 1 {
 				od = 2
 			}
-			ol := x.outLevel(st.OutLevel, wantLvl)
-			out = x.freshOut(od, ol)
-			wantDeg, wantLvl = imax(wantDeg, od), imin(wantLvl, ol)
+			out, reg = x.receiver(st, od, wantLvl, a, b.e)
+			wantDeg, wantLvl = imax(wantDeg, out.Degree()), imin(wantLvl, out.Level())
 		}
 		vals = x.vecOp(f, a.vals, b.e.vals)
 		B = addB(a.B, b.e.B)
@@ -162,9 +162,11 @@ func (x *ctx) stepAddSub(st Step) error {
 	case "scalar", "vector":
 		wantDeg, wantLvl = d0, l0
 		if !isNew {
-			ol := x.outLevel(st.OutLevel, wantLvl)
-			out = x.freshOut(d0, ol)
-			wantLvl = imin(wantLvl, ol)
+			out, reg = x.receiver(st, d0, wantLvl, a)
+			wantLvl = imin(wantLvl, out.Level())
+			if out.Degree() > d0 {
+				wantDeg = -1 // no comment states the degree left in a receiver of higher degree: exact decoding decides
+			}
 		}
 		if b.class == "scalar" {
 			vals = x.vecScalar(f, a.vals, b.sval)
@@ -177,6 +179,9 @@ func (x *ctx) stepAddSub(st Step) error {
 
 	res, err := x.call2(st.Op, a.ct, b.arg, out)
 	x.note(st.Op, b.class)
+	if reg != nil && (err != nil || b.oversize) {
+		reg.dead = true // the receiver may have been resized before the error: its old value is not claimed any more
+	}
 	if b.oversize {
 		return x.expectErr(key, "oversize-vector", err)
 	}
@@ -186,11 +191,9 @@ func (x *ctx) stepAddSub(st Step) error {
 	if B == nil {
 		B = x.matchBound(res.Scale.Uint64(), s0, a.B, b.e.scale(), b.e.B)
 	}
-	e := &entry{ct: res, vals: vals, B: B}
-	if err := x.verify(e, key, wantDeg, wantLvl, nil, alt); err != nil {
+	if err := x.store(reg, res, vals, B, key, wantDeg, wantLvl, nil, alt); err != nil {
 		return err
 	}
-	x.pool = append(x.pool, e)
 	if err := x.recheck(a, key); err != nil {
 		return err
 	}
@@ -209,6 +212,65 @@ func (x *ctx) matchBound(S, s0 uint64, B0 *big.Int, s1 uint64, B1 *big.Int) *big
 	u0 := mulmod(S, invmod(s0, x.t), x.t)
 	u1 := mulmod(S, invmod(s1, x.t), x.t)
 	return addB(mulB(B0, new(big.Int).SetUint64(u0)), mulB(B1, new(big.Int).SetUint64(u1)))
+}
+
+// receiver returns the output object of a non-New form. st.OutReg == 0: a fresh ciphertext of the given degree at the
+// level selected by st.OutLevel. st.OutReg > 0: an EXISTING pool ciphertext other than the inputs (live or retired,
+// possibly of higher degree and/or level than the result and with another scale); its old value is dead afterwards and
+// the register holds the result (second return value).
+func (x *ctx) receiver(st Step, deg, lvl int, avoid ...*entry) (*rlwe.Ciphertext, *entry) {
+	if st.OutReg > 0 {
+		var cands, deg2 []*entry
+		for _, e := range x.pool {
+			if e.ct == nil {
+				continue
+			}
+			skip := false
+			for _, a := range avoid {
+				if a == e {
+					skip = true
+				}
+			}
+			if skip {
+				continue
+			}
+			cands = append(cands, e)
+			if e.degree() == 2 {
+				deg2 = append(deg2, e)
+			}
+		}
+		if st.OutReg%2 == 0 && len(deg2) > 0 {
+			cands = deg2 // every second selector prefers a receiver that holds a degree-2 ciphertext
+		}
+		if reg := pick(cands, (st.OutReg-1)/2); reg != nil {
+			return reg.ct, reg
+		}
+	}
+	return x.freshOut(deg, x.outLevel(st.OutLevel, lvl)), nil
+}
+
+// store books the result of a step: a new pool element, or the overwritten register.
+func (x *ctx) store(reg *entry, res *rlwe.Ciphertext, vals []uint64, B *big.Int, key string, wantDeg, wantLvl int, wantScale *uint64, alt uint64) error {
+	if reg != nil {
+		cls := "receiver=existing"
+		if reg.dead {
+			cls += "/retired"
+		}
+		x.rec.Class(cls)
+		reg.vals, reg.B, reg.dead = vals, B, false
+		x.reused = true
+		if err := x.verify(reg, key+":reused-receiver", wantDeg, wantLvl, wantScale, alt); err != nil {
+			reg.dead = true
+			return err
+		}
+		return nil
+	}
+	e := &entry{ct: res, vals: vals, B: B}
+	if err := x.verify(e, key, wantDeg, wantLvl, wantScale, alt); err != nil {
+		return err
+	}
+	x.pool = append(x.pool, e)
+	return nil
 }
 
 // negQInv returns (-Q_level)^-1 mod t.
@@ -243,6 +305,7 @@ func (x *ctx) stepMul(st Step) error {
 
 	d0, l0, s0 := a.degree(), a.level(), a.scale()
 	var out *rlwe.Ciphertext
+	var reg *entry
 	var wantDeg, wantLvl int
 	var vals []uint64
 	var B *big.Int
@@ -259,9 +322,8 @@ func (x *ctx) stepMul(st Step) error {
 			wantDeg = 1
 		}
 		if !isNew {
-			ol := x.outLevel(st.OutLevel, wantLvl)
-			out = x.freshOut(wantDeg, ol)
-			wantLvl = imin(wantLvl, ol)
+			out, reg = x.receiver(st, wantDeg, wantLvl, a, b.e)
+			wantLvl = imin(wantLvl, out.Level())
 		}
 		if d0+d1 > 2 {
 			reason = "degree-too-high"
@@ -287,9 +349,8 @@ func (x *ctx) stepMul(st Step) error {
 		l1, s1 := b.e.level(), b.e.scale()
 		wantLvl, wantDeg = imin(l0, l1), d0
 		if !isNew {
-			ol := x.outLevel(st.OutLevel, wantLvl)
-			out = x.freshOut(wantDeg, ol)
-			wantLvl = imin(wantLvl, ol)
+			out, reg = x.receiver(st, wantDeg, wantLvl, a)
+			wantLvl = imin(wantLvl, out.Level())
 		}
 		vals = x.vecOp(mulmod, a.vals, b.e.vals)
 		B = x.tensorStd(a.B, x.tB)
@@ -304,9 +365,11 @@ func (x *ctx) stepMul(st Step) error {
 	case "scalar":
 		wantLvl, wantDeg = l0, d0
 		if !isNew {
-			ol := x.outLevel(st.OutLevel, wantLvl)
-			out = x.freshOut(wantDeg, ol)
-			wantLvl = imin(wantLvl, ol)
+			out, reg = x.receiver(st, wantDeg, wantLvl, a)
+			wantLvl = imin(wantLvl, out.Level())
+			if out.Degree() > d0 {
+				wantDeg = -1 // no comment states the degree left in a receiver of higher degree: exact decoding decides
+			}
 		}
 		vals = x.vecScalar(mulmod, a.vals, b.sval)
 		B = mulB(a.B, addB(new(big.Int).Rsh(x.tB, 1), bi(1)))
@@ -314,9 +377,11 @@ func (x *ctx) stepMul(st Step) error {
 	case "vector":
 		wantLvl, wantDeg = l0, d0
 		if !isNew {
-			ol := x.outLevel(st.OutLevel, wantLvl)
-			out = x.freshOut(wantDeg, ol)
-			wantLvl = imin(wantLvl, ol)
+			out, reg = x.receiver(st, wantDeg, wantLvl, a)
+			wantLvl = imin(wantLvl, out.Level())
+			if out.Degree() > d0 {
+				wantDeg = -1
+			}
 		}
 		vals = x.vecOp(mulmod, a.vals, b.vvals)
 		B = x.tensorStd(a.B, x.tB)
@@ -325,6 +390,9 @@ func (x *ctx) stepMul(st Step) error {
 
 	res, err := x.call2(st.Op, a.ct, b.arg, out)
 	x.note(st.Op, b.class)
+	if reg != nil && (err != nil || b.oversize || reason != "") {
+		reg.dead = true // the receiver may have been touched before the error: its old value is not claimed any more
+	}
 	if b.oversize {
 		return x.expectErr(key, "oversize-vector", err)
 	}
@@ -334,11 +402,9 @@ func (x *ctx) stepMul(st Step) error {
 	if err != nil {
 		return x.unexpected(key, err)
 	}
-	e := &entry{ct: res, vals: vals, B: B}
-	if err := x.verify(e, key, wantDeg, wantLvl, wantScale, alt); err != nil {
+	if err := x.store(reg, res, vals, B, key, wantDeg, wantLvl, wantScale, alt); err != nil {
 		return err
 	}
-	x.pool = append(x.pool, e)
 	if err := x.recheck(a, key); err != nil {
 		return err
 	}
@@ -497,6 +563,7 @@ func (x *ctx) stepRescale(st Step) error {
 	key := x.key(st.Op, "-")
 	d0, l0, s0 := a.degree(), a.level(), a.scale()
 	out := a.ct
+	var reg *entry
 	reason := ""
 	if !inPlace {
 		ol := l0 - 1
@@ -513,12 +580,25 @@ func (x *ctx) stepRescale(st Step) error {
 			ol = 0
 		}
 		out = x.freshOut(d0, ol)
+		if st.OutReg > 0 {
+			// an existing pool ciphertext of any degree as receiver (documented error if its level is below l0-1)
+			reason = ""
+			if o, r := x.receiver(st, d0, ol, a); r != nil {
+				out, reg = o, r
+				if out.Level() < l0-1 {
+					reason = "output-level-too-small"
+				}
+			}
+		}
 	}
 	if l0 == 0 {
 		reason = "level-0"
 	}
 	err := x.eval.Rescale(a.ct, out)
 	x.note(st.Op, "-")
+	if reg != nil && !x.c.BFV && (err != nil || reason != "") {
+		reg.dead = true
+	}
 	if x.c.BFV {
 		// documented no-op of the scale-invariant evaluator
 		if err != nil {
@@ -546,11 +626,9 @@ func (x *ctx) stepRescale(st Step) error {
 		}
 		return nil
 	}
-	e := &entry{ct: out, vals: a.vals, B: B}
-	if err := x.verify(e, key, d0, l0-1, &sc, 0); err != nil {
+	if err := x.store(reg, out, a.vals, B, key, d0, l0-1, &sc, 0); err != nil {
 		return err
 	}
-	x.pool = append(x.pool, e)
 	return x.recheck(a, key)
 }
 
@@ -633,16 +711,19 @@ func (x *ctx) stepRelin(st Step) error {
 	}
 	wantLvl := l0
 	var out *rlwe.Ciphertext
+	var reg *entry
 	var err error
 	if isNew {
 		out, err = x.eval.RelinearizeNew(a.ct)
 	} else {
-		ol := x.outLevel(st.OutLevel, l0)
-		out = x.freshOut(1, ol)
-		wantLvl = imin(l0, ol)
+		out, reg = x.receiver(st, 1, l0, a)
+		wantLvl = imin(l0, out.Level())
 		err = x.eval.Relinearize(a.ct, out)
 	}
 	x.note(st.Op, "-")
+	if reg != nil && (err != nil || reason != "") {
+		reg.dead = true
+	}
 	if reason != "" {
 		if err2 := x.expectErr(key, reason, err); err2 != nil {
 			return err2
@@ -652,10 +733,8 @@ func (x *ctx) stepRelin(st Step) error {
 	if err != nil {
 		return x.unexpected(key, err)
 	}
-	e := &entry{ct: out, vals: a.vals, B: addB(a.B, x.ksNoise(wantLvl))}
-	if err := x.verify(e, key, 1, wantLvl, nil, 0); err != nil {
+	if err := x.store(reg, out, a.vals, addB(a.B, x.ksNoise(wantLvl)), key, 1, wantLvl, nil, 0); err != nil {
 		return err
 	}
-	x.pool = append(x.pool, e)
 	return x.recheck(a, key)
 }
